@@ -128,6 +128,59 @@ func c11IOCheck(l *explore.Local, _ struct{}, c c11IO) *explore.Fail {
 	return nil
 }
 
+// ---- (h) object memory and video memory written at every phase of a line -------------------------
+
+// c11Mem: the busy machine (forty objects spread over the screen, 8x8 or 8x16) is brought to line Line; after every
+// delay of two scan lines one byte of OAM (every field of every object) or of VRAM (tile data / both maps) is written
+// with one of four values, and the machine runs on for 160 cycles. What the OAM scan saw and what the pixel transfer
+// re-reads a few cycles later may then disagree: nothing may crash.
+type c11Mem struct {
+	Line  int   `json:"line"`
+	LCDC  uint8 `json:"lcdc"`
+	Delay int   `json:"delay"` // first delay of this block of 12
+}
+
+var c11MemVals = []uint8{0x00, 0xa0, 0xff, 0x10}
+
+func c11MemCheck(l *explore.Local, _ struct{}, c c11Mem) *explore.Fail {
+	base := c11IOSetup(0x7fe)
+	for i := 0; i < 200; i++ { // the setup's DMA completes
+		base.Cycle()
+	}
+	base.Map.Write(0xff40, c.LCDC)
+	for i := 0; i < 2*17556 && int(base.Map.Read(0xff44)) != c.Line; i++ {
+		base.Cycle()
+	}
+	for i := 0; i < c.Delay; i++ {
+		base.Cycle()
+	}
+	var addrs []uint16
+	for a := 0xfe00; a < 0xfea0; a++ {
+		addrs = append(addrs, uint16(a))
+	}
+	addrs = append(addrs, 0x8000, 0x8001, 0x800f, 0x8010, 0x8ff0, 0x9000, 0x97ff, 0x9800, 0x9821, 0x9bff, 0x9c00, 0x9fff)
+	for d := 0; d < 12; d++ {
+		sp, so, si, st, sc, sm, sa := *base.P, *base.OAM, *base.I, *base.T, *base.CPU, *base.Map, base.A.VSave()
+		for _, a := range addrs {
+			for _, v := range c11MemVals {
+				*base.P, *base.OAM, *base.I, *base.T, *base.CPU, *base.Map = sp, so, si, st, sc, sm
+				base.A.VLoad(sa)
+				base.Map.Write(a, v)
+				if runGuarded(base, 160) {
+					continue
+				}
+				l.Trans(1)
+			}
+		}
+		*base.P, *base.OAM, *base.I, *base.T, *base.CPU, *base.Map = sp, so, si, st, sc, sm
+		base.A.VLoad(sa)
+		base.Cycle()
+	}
+	l.Eval(1)
+	l.Outcome(uint64(c.Line)<<16 | uint64(c.Delay)<<4 | uint64(c.LCDC&4))
+	return nil
+}
+
 // ---- (g) LCD switched off and on again, several rounds, with every layer showing ---------------
 
 // c11LCD: the busy machine shows background, window and objects; Rounds times the LCD is switched off when line Line
@@ -459,7 +512,7 @@ type c11Undef struct {
 func init() {
 	register("C11", "fault_enumeration", func(c *Ctx) {
 		if c.R != nil {
-			c.R.Rule = "complete products, each case run on the real code with panics recovered per case: (a) cartridge-type byte (all 256) x ROM-size code x RAM-size code x image length class -> construct, then windows/control writes/selectors/128 CPU cycles; (b) every supported cartridge x every control-region representative x all 256 values, each followed by every (region, value-class) second write and all window accesses; (c) bus sweep: read all 64 KiB, write 00/FF everywhere, DMA from every page, LCD on/off, RAM on/off; (d) every opcode (512 encodings x 8 operand pairs) and every ordered pair from a representative set, pointers/SP/PC placed in 22 region classes, on each controller type; (f) from a busy machine every I/O register written with 10 values after every delay 0-131 (and again 0, 1, 7 cycles later); (g) the LCD switched off at a given line and on again, 1-9 rounds, with background, window and objects showing, then two frames; (e) the 11 undefined opcodes must exit with status 1 and the message (sub-processes)"
+			c.R.Rule = "complete products, each case run on the real code with panics recovered per case: (a) cartridge-type byte (all 256) x ROM-size code x RAM-size code x image length class -> construct, then windows/control writes/selectors/128 CPU cycles; (b) every supported cartridge x every control-region representative x all 256 values, each followed by every (region, value-class) second write and all window accesses; (c) bus sweep: read all 64 KiB, write 00/FF everywhere, DMA from every page, LCD on/off, RAM on/off; (d) every opcode (512 encodings x 8 operand pairs) and every ordered pair from a representative set, pointers/SP/PC placed in 22 region classes, on each controller type; (f) from a busy machine every I/O register written with 10 values after every delay 0-131 (and again 0, 1, 7 cycles later); (h) every OAM byte and 12 VRAM addresses written with 4 values after every delay of two scan lines from three start lines, objects 8x8 and 8x16; (g) the LCD switched off at a given line and on again, 1-9 rounds, with background, window and objects showing, then two frames; (e) the 11 undefined opcodes must exit with status 1 and the message (sub-processes)"
 			c.R.Assumptions = []string{"a panic inside the constructor counts as 'fails during construction'", "programs are stopped by the harness before an undefined opcode executes (the deliberate stop is checked separately)", "crash = Go panic or process exit; memory growth and non-termination are out of scope (there is no allocation or unbounded loop on the emulation path)"}
 		}
 		supported := []cartSpec{}
@@ -575,6 +628,18 @@ func init() {
 					}
 				}
 			}, func() struct{} { return struct{}{} }, c11IOCheck)
+		explore.Product(c.R, "oam-vram-writes-at-every-phase", explore.PartOpt{Bound: "one write after every delay 0-227 (two scan lines) from the start of the line, then 160 cycles", Domain: "every OAM byte FE00-FE9F + 12 VRAM addresses x 4 values x start lines {3, 60, 118} x objects 8x8 / 8x16"},
+			func(yield func(c11Mem) bool) {
+				for _, line := range []int{3, 60, 118} {
+					for _, lcdc := range []uint8{0x93, 0x97} {
+						for d := 0; d < 228; d += 12 {
+							if !yield(c11Mem{Line: line, LCDC: lcdc, Delay: d}) {
+								return
+							}
+						}
+					}
+				}
+			}, func() struct{} { return struct{}{} }, c11MemCheck)
 		explore.Product(c.R, "lcd-off-on-rounds", explore.PartOpt{Bound: "1, 2, 5 and 9 rounds of off/on at the given line, then 2 frames", Domain: "LCDC {F3,B3,E7,FF,91,A1} x (WX,WY) {(7,0),(166,0),(0,0),(7,143),(100,30)} x line {0,1,60,113,120,143,144,150} x off for {1,300} cycles"},
 			func(yield func(c11LCD) bool) {
 				for _, lcdc := range []uint8{0xf3, 0xb3, 0xe7, 0xff, 0x91, 0xa1} {
